@@ -225,7 +225,19 @@ func genK1(g *Gen) {
 		case 4:
 			g.Emit("signerr", "K1", "sign", "24", "0", "-", "nil", "0", hx(priv), hx(g.Bytes(5)))
 		case 5:
-			g.Emit("signerr", "K1", "sign", "nil", "0", "-", hx(g.Bytes(31)), "0", hx(priv), hx(g.Bytes(5)))
+			// entropy source that runs dry: without dom2, with a context, pre-hashed; the signature requested right
+			// afterwards (any key, no options) must be unaffected by the aborted call
+			switch g.Intn(3) {
+			case 0:
+				g.Emit("signerr", "K1", "sign", "nil", "0", "-", hx(g.Bytes(31)), "0", hx(priv), hx(g.Bytes(5)))
+			case 1:
+				g.Emit("signerr.ctx", "K1", "sign", "nil", "0", hx(g.Bytes(1+g.Intn(40))), hx(g.Bytes(1+g.Intn(31))), "0", hx(priv), hx(g.Bytes(5)))
+			case 2:
+				g.Emit("signerr.ph", "K1", "sign", "nil", "512", "-", hx(g.Bytes(1+g.Intn(31))), "0", hx(priv), hx(g.Bytes(64)))
+			}
+			m := g.Bytes(lens[g.Intn(len(lens))])
+			g.Emit("sign.aftererr", "K1", "sign", "nil", "0", "-", "nil", itoa(g.Intn(2)), hx(priv), hx(m))
+			g.Emit("stdsign", "K1", "stdsign", hx(priv), hx(m))
 		}
 		if g.Intn(8) == 0 {
 			g.Emit("newkeylen", "K1", "newkey", hx(g.Bytes(31+2*g.Intn(2))))
